@@ -67,7 +67,7 @@ RULE = ("type-directed random TsCore programs (aliases, generic aliases, interfa
 def run(chk):
     chk.build_rust(); chk.build_js()
     quick = chk.tier == "quick"
-    passes = [_corpus] + ([_pass(chk.seed * 100 + 3, 1500, 16, "prog(random)"), _pass_ops(chk.seed * 100 + 4, 1500, "operators(random)")] if quick else
+    passes = [_corpus] + ([_pass(chk.seed * 100 + 3, 3000, 16, "prog(random)"), _pass_ops(chk.seed * 100 + 4, 3000, "operators(random)")] if quick else
                           [_pass(chk.seed * 100 + k, 6000, 24, f"prog(random#{k})") for k in range(8)] + [_pass_ops(chk.seed * 100 + 40 + k, 12000, f"operators(random#{k})") for k in range(2)])
     return vcheck.generic_run(chk, MODULES, AUDIT, passes,
         ["C01: Model/{TsCore,IR,Spec}.lean model frontend/mod.rs (extract_type_inner, named definitions, built-ins), ast/runtype.rs any_of/all_of and "
